@@ -838,7 +838,8 @@ def run(scn, ch, log=False):
                     f"body {len(exp.body)} bytes)")
         idle_bound = 4 * max(limit, L) + slack
         if st.max_idle > idle_bound and not unbounded:  # after read() the limit stays lifted
-            violate("resident_bound", f"idle_buffer_over_bound:{scn['codec']}",
+            one_extra_idle = st.max_idle <= idle_bound + rx["max"] and st.stale_flag
+            violate("resident_bound", "resident_over_bound:one_extra_transport_read" if one_extra_idle else f"idle_buffer_over_bound:{scn['codec']}",
                     f"{st.max_idle} decoded bytes sat in the reader buffer while nobody was consuming (bound {idle_bound}, "
                     f"read_bufsize={limit}, codec={scn['codec']})")
         # (3) progress -------------------------------------------------------------
